@@ -1,12 +1,15 @@
 package c10
 
 import (
+	"context"
+	"errors"
 	"fmt"
 	"reflect"
 	"strings"
 	"testing"
 
 	"github.com/aldas/go-modbus-client/packet"
+	"github.com/aldas/go-modbus-client/server"
 	"pgregory.net/rapid"
 
 	"verif/internal/cat"
@@ -51,9 +54,40 @@ func init() {
 		entry{Name: "LooksLikeModbusTCP(false)", Framing: spec.TCP, Request: true, Fn: func(d []byte) (interface{}, error) { n, err := packet.LooksLikeModbusTCP(d, false); return n, err }},
 		entry{Name: "LooksLikeModbusTCP(true)", Framing: spec.TCP, Request: true, Fn: func(d []byte) (interface{}, error) { n, err := packet.LooksLikeModbusTCP(d, true); return n, err }},
 	)
+	// the server's stream assembler is the caller of the classifier and the request dispatcher: whole input in one read, and byte by
+	// byte (every prefix of the input is then classified)
+	entries = append(entries,
+		entry{Name: "ModbusTCPAssembler.ReceiveRead", Framing: spec.TCP, Request: true, Fn: func(d []byte) (interface{}, error) {
+			a := &server.ModbusTCPAssembler{Handler: fixedHandler{}}
+			out, closeConn := a.ReceiveRead(context.Background(), d, len(d))
+			return fmt.Sprintf("%x close=%v", out, closeConn), nil
+		}},
+		entry{Name: "ModbusTCPAssembler.ReceiveRead(byte-wise)", Framing: spec.TCP, Request: true, Fn: func(d []byte) (interface{}, error) {
+			a := &server.ModbusTCPAssembler{Handler: fixedHandler{}}
+			var all []byte
+			for i := range d {
+				out, closeConn := a.ReceiveRead(context.Background(), d[i:i+1:i+1], 1)
+				all = append(all, out...)
+				if closeConn {
+					return fmt.Sprintf("%x close after %d", all, i+1), nil
+				}
+			}
+			return fmt.Sprintf("%x", all), nil
+		}},
+	)
 	for i := range entries {
 		entryByName[entries[i].Name] = &entries[i]
 	}
+}
+
+// fixedHandler answers every request the assembler hands over: odd unit ids with an error, even ones with a fixed response.
+type fixedHandler struct{}
+
+func (fixedHandler) Handle(ctx context.Context, req packet.Request) (packet.Response, error) {
+	if len(req.Bytes()) > 6 && req.Bytes()[6]%2 == 1 {
+		return nil, errors.New("handler refuses odd units")
+	}
+	return packet.WriteSingleRegisterResponseTCP{MBAPHeader: packet.MBAPHeader{TransactionID: 1, ProtocolID: 0}, WriteSingleRegisterResponse: packet.WriteSingleRegisterResponse{UnitID: 2, Address: 3, Data: [2]byte{4, 5}}}, nil
 }
 
 type parseCase struct {
@@ -272,6 +306,9 @@ func genFor(t *rapid.T, e *entry) parseCase {
 		}
 	default: // random string with plausible header
 		n := rapid.IntRange(0, 300).Draw(t, "n")
+		if rapid.Bool().Draw(t, "short") {
+			n = rapid.IntRange(0, 12).Draw(t, "n_short")
+		}
 		d := gen.Payload(t, "rnd", n)
 		if e.Framing == spec.TCP && n >= 8 && rapid.Bool().Draw(t, "plausible") {
 			d[2], d[3] = 0, 0
